@@ -456,6 +456,11 @@ def _tooler(fn, captures):
     with _tooling_lock:
         if hasattr(fn, "__ptera_stack__"):
             st = fn.__ptera_stack__
+        elif is_tooled(fn):
+            # Fully instrumented already (@tooled, tooled.inplace): every
+            # variable is available. Installing a variant for these captures
+            # only would take the others away from the overlays that use them.
+            return fn
         else:
             st = fn.__ptera_stack__ = SyncedStackedTransforms(
                 fn, proceed=proceed
